@@ -40,7 +40,7 @@ class ScenUnit:
                 tu.func(q)            # must exist with a body (extraction break -> undecided)
             for (tag, runner) in self.gen(tu):
                 try:
-                    runs = explore(runner, self.max_paths)
+                    runs = explore(runner, self.max_paths, stop_on=(lambda res: any(o[1] == "fail" for o in res)) if getattr(self, "stop_at_first_failure", False) else None)
                 except (SymxError, ExtractionError, KeyError, AttributeError, TypeError, IndexError) as e:
                     # this scenario is outside the interpreter's reach on this tree: undecided, the others still count
                     n_ob += 1
